@@ -77,6 +77,15 @@ struct Mutation;
 #[Object]
 impl Mutation { async fn set(&self, c: Color) -> Color { c } }
 
+/// the same dump asking for deprecated elements everywhere (args / inputFields also take includeDeprecated);
+/// the schemas here deprecate nothing, so both forms must describe the same type system
+fn query_for(case: &J) -> String {
+    match case["incl"].as_str().unwrap_or("base") {
+        "all" => QUERY.replace(" args {", " args(includeDeprecated: true) {").replace("inputFields {", "inputFields(includeDeprecated: true) {"),
+        "none" => QUERY.replace("(includeDeprecated: true)", ""),
+        _ => QUERY.to_string(),
+    }
+}
 const QUERY: &str = r#"query I { __schema { queryType { name } mutationType { name } subscriptionType { name }
   types { ...T } } }
 fragment T on __Type { kind name
@@ -141,7 +150,7 @@ fn main() {
             if flavour == "static" {
                 let f = &case["flags"];
                 let flags = Flags(f[0].as_bool().unwrap_or(true), f[1].as_bool().unwrap_or(true), f[2].as_bool().unwrap_or(true));
-                let r = futures_executor::block_on(static_schema.execute(Request::new(QUERY).data(flags)));
+                let r = futures_executor::block_on(static_schema.execute(Request::new(query_for(&case)).data(flags)));
                 let data = r.data.clone().into_json().unwrap_or(J::Null);
                 let mut by_name = Vec::new();
                 for t in data["__schema"]["types"].as_array().cloned().unwrap_or_default() {
@@ -157,7 +166,7 @@ fn main() {
                 (json!({"dump": dump(&data), "errors": r.errors.len()}), json!(by_name), sdl_names(&static_schema.sdl()))
             } else {
                 let schema = dynfam::build(&case["dts"]).expect("dynamic schema must build");
-                let r = futures_executor::block_on(schema.execute(Request::new(QUERY).data(Req::new(json!({})))));
+                let r = futures_executor::block_on(schema.execute(Request::new(query_for(&case)).data(Req::new(json!({})))));
                 let data = r.data.clone().into_json().unwrap_or(J::Null);
                 (json!({"dump": dump(&data), "errors": r.errors.len()}), json!([]), sdl_names(&schema.sdl()))
             }
